@@ -45,6 +45,18 @@ CHECKS = {
         'Trusted: TLC, token renderer, value projection (harness/c01_eval.py). Where the reference is silent the spec answers '
         '"unspecified" and accepts any outcome (listed in the evidence assumptions). subdir()/subproject() not exercised yet.',
         'DESIGN.md section 5, C01'),
+    'C16': (
+        'TLC: normal form of program trees (specs/format/FormatEquiv over MesonGrammar) ignores exactly layout trivia and '
+        'distinguishes literals by denotation; trace validation of the real Formatter (generated + corpus + mutated inputs x '
+        'seeded configurations) by TraceFormat.tla',
+        'Model checking of the normal-form laws (layout decoration never changes Norm; literal rewrites keep Norm iff the '
+        'denotation is equal) plus trace validation: generated programs with legal trivia, every build file of the repository '
+        'and token mutants are formatted by the real Formatter under seeded option combinations; TLC parses input and output '
+        'tokens with the reference grammar and compares normal forms and comment sequences; idempotence (classified) and the '
+        '--check-only/--check-diff exit status against a real --inplace run are recorded in the same trace.',
+        'Trusted: TLC; input and output are tokenised by the real Lexer (itself checked at small scope by C02); harness '
+        'classification of idempotence failures (indentation-only, line continuation, no_single_comma_function) feeds the known-findings list.',
+        'DESIGN.md section 5, C16'),
 }
 
 NOT_YET = {}
